@@ -175,7 +175,9 @@ type Result struct {
 	FailureCounts map[string]int
 	Inconclusive []string
 	BoundExceed  []string
+	BoundPaths   int64
 	Unsupported  []string
+	UnsupportedPaths int64
 	EngineErrors []string
 	Reached      map[string]int64
 	Functions    map[string]bool
@@ -184,6 +186,8 @@ type Result struct {
 	Samples      []PathSample
 	SolverTime   time.Duration
 	SolverQ      int
+	SolverTime2  time.Duration
+	SolverQ2     int
 	Wall         time.Duration
 	Complete     bool // queue drained within budgets
 	MaxThreads   int
@@ -313,15 +317,27 @@ func (p *explorePool) worker(id int) {
 		}
 		switch pr.outcome {
 		case "bound":
-			if len(r.BoundExceed) < 50 {
-				r.BoundExceed = append(r.BoundExceed, pr.detail)
-			} else {
-				r.BoundExceed[49] = "... more"
+			dup := false
+			for _, b := range r.BoundExceed {
+				if b == pr.detail {
+					dup = true
+				}
 			}
+			if !dup && len(r.BoundExceed) < 50 {
+				r.BoundExceed = append(r.BoundExceed, pr.detail)
+			}
+			r.BoundPaths++
 		case "unsupported":
-			if len(r.Unsupported) < 50 {
+			dup := false
+			for _, b := range r.Unsupported {
+				if b == pr.detail {
+					dup = true
+				}
+			}
+			if !dup && len(r.Unsupported) < 50 {
 				r.Unsupported = append(r.Unsupported, pr.detail)
 			}
+			r.UnsupportedPaths++
 		case "engine":
 			if len(r.EngineErrors) < 20 {
 				r.EngineErrors = append(r.EngineErrors, pr.detail)
@@ -348,6 +364,11 @@ func (p *explorePool) worker(id int) {
 	p.res.Stats.add(&ex.stats)
 	p.res.SolverTime += solver.Time
 	p.res.SolverQ += solver.Queries
+	if ex.solver2 != nil {
+		p.res.SolverTime2 += ex.solver2.Time
+		p.res.SolverQ2 += ex.solver2.Queries
+		ex.solver2.Close()
+	}
 	for f := range funcs {
 		p.res.Functions[f.String()] = true
 	}
